@@ -219,7 +219,7 @@ fn parse_signed_time_str(timestamp: &str) -> i64 {
     } else {
         0
     };
-    let timestamp_us = timestamp_secs_us + timestamp_fraction_us;
+    let timestamp_us = timestamp_secs_us.saturating_add(timestamp_fraction_us);
     if timestamp_is_neg {
         -timestamp_us
     } else {
